@@ -765,6 +765,11 @@ class FollowSend(SendFilter):
         # tree then lacks a link target. Signature: implementation = model and the reference says the include set is not closed.
         "F19": lambda op, impl, model: model.get("follow_spec") is False and model.get("follow") is False
         and [norm_stat(s) for s in sent_stats(impl)] == [norm_stat(s) for s in model.get("sent", [])],
+        # F12 on a disk source: a request component that is a pattern and, read literally, the name of an entry: FollowLinks looks the
+        # pattern text up as a path and the kernel resolves through the entry of that name, which the listing-level transcription cannot see
+        "F12": lambda op, impl, model: op["src"]["kind"] == "disk" and any(
+            c in {x for e in op["src"]["tree"] for x in bytes.fromhex(e["p"]).split(b"/")} and any(y in c for y in b"*?[")
+            for f in ("sfilter", "sfilter2") for q in op.get(f, {}).get("follow", []) for c in bytes.fromhex(q).split(b"/")),
         # F32: the same, with a link whose resolution text has a component with a pattern metacharacter in the tree
         # (or the include set is closed but names the literal '[v1]x' unescaped, which the filter reads as a class)
         "F32": lambda op, impl, model: model.get("follow_metalink") is True and model.get("follow") is False
